@@ -141,9 +141,11 @@ mod lsp {
     fn update(&mut self, absolute_source_path: &Path, updates: Vec<(Url, String)>) {
       let mut mod_ref_updates = Vec::new();
       for (url, code) in updates {
-        let mod_ref = self.0.heap.alloc_module_reference_from_string_vec(
-          convert_url_to_module_reference_helper(absolute_source_path, &url),
-        );
+        // A document outside of the source directory is not a module of this project.
+        let Some(parts) = convert_url_to_module_reference_helper(absolute_source_path, &url) else {
+          continue;
+        };
+        let mod_ref = self.0.heap.alloc_module_reference_from_string_vec(parts);
         mod_ref_updates.push((mod_ref, code));
       }
       self.0.update(mod_ref_updates);
@@ -215,7 +217,11 @@ mod lsp {
     Url::from_file_path(path).ok()
   }
 
-  fn convert_url_to_module_reference_helper(absolute_source_path: &Path, url: &Url) -> Vec<String> {
+  /// `None` if the url does not point into the source directory.
+  fn convert_url_to_module_reference_helper(
+    absolute_source_path: &Path,
+    url: &Url,
+  ) -> Option<Vec<String>> {
     let url_str = url.as_str();
     let url_protocol_stripped_str = PathBuf::from(if url_str.starts_with("file://") {
       url_str.chars().skip("file://".len()).collect::<String>()
@@ -226,7 +232,6 @@ mod lsp {
       absolute_source_path,
       url_protocol_stripped_str.as_path(),
     )
-    .unwrap()
   }
 
   unsafe impl Send for WrappedState {}
@@ -251,17 +256,18 @@ mod lsp {
       heap: &samlang_heap::Heap,
       url: &Url,
     ) -> samlang_heap::ModuleReference {
-      let parts = convert_url_to_module_reference_helper(&self.absolute_source_path, url);
-      heap.get_allocated_module_reference_opt(parts).unwrap_or(samlang_heap::ModuleReference::ROOT)
+      convert_url_to_module_reference_helper(&self.absolute_source_path, url)
+        .and_then(|parts| heap.get_allocated_module_reference_opt(parts))
+        .unwrap_or(samlang_heap::ModuleReference::ROOT)
     }
 
     fn convert_url_to_module_reference_add_if_absent(
       &self,
       heap: &mut samlang_heap::Heap,
       url: &Url,
-    ) -> samlang_heap::ModuleReference {
-      let parts = convert_url_to_module_reference_helper(&self.absolute_source_path, url);
-      heap.alloc_module_reference_from_string_vec(parts)
+    ) -> Option<samlang_heap::ModuleReference> {
+      convert_url_to_module_reference_helper(&self.absolute_source_path, url)
+        .map(|parts| heap.alloc_module_reference_from_string_vec(parts))
     }
 
     fn convert_module_reference_to_url(
@@ -376,7 +382,7 @@ mod lsp {
         .filter_map(|uri| {
           let content = fs::read_to_string(uri.path()).ok()?;
           Some((
-            self.convert_url_to_module_reference_add_if_absent(&mut state.0.heap, &uri),
+            self.convert_url_to_module_reference_add_if_absent(&mut state.0.heap, &uri)?,
             content,
           ))
         })
@@ -392,11 +398,10 @@ mod lsp {
         .files
         .iter()
         .filter_map(|f| Option::zip(Url::parse(&f.old_uri).ok(), Url::parse(&f.new_uri).ok()))
-        .map(|(old_uri, new_uri)| {
-          (
-            self.convert_url_to_module_reference_add_if_absent(&mut state.0.heap, &old_uri),
-            self.convert_url_to_module_reference_add_if_absent(&mut state.0.heap, &new_uri),
-          )
+        .filter_map(|(old_uri, new_uri)| {
+          let old = self.convert_url_to_module_reference_add_if_absent(&mut state.0.heap, &old_uri);
+          let new = self.convert_url_to_module_reference_add_if_absent(&mut state.0.heap, &new_uri);
+          Option::zip(old, new)
         })
         .collect::<Vec<_>>();
       state.0.rename_module(rename_set);
